@@ -1107,6 +1107,10 @@ func (p *Prog) paramLenPre(fn *ssa.Function) map[*ssa.Parameter]int64 {
 			z := p.zoneFlowOf(caller, assume)
 			lt := z.lenTerm(arg)
 			if !z.leq(site.(ssa.Instruction), zterm{0, 1, true}, lt) {
+				// a field every store of which is a made slice of constant length >= 1 (the invariant of B8)
+				if k, isK := p.constBufLen(caller, arg); isK && k >= 1 {
+					continue
+				}
 				ok = false
 				break
 			}
